@@ -4,3 +4,4 @@ open PgmVerif
 #print axioms PgmVerif.C03_argmax_decode
 #print axioms PgmVerif.C03_map_is_maximiser
 #print axioms PgmVerif.C03_max_elimination_any_order
+#print axioms PgmVerif.C03_argmax_scale_invariant
